@@ -31,6 +31,9 @@ type Case struct {
 	PShape     string   `json:"pshape"` // none | one | each
 	RFmts      []int16  `json:"rfmts,omitempty"`
 	Limit      int      `json:"limit"`
+	// Bulk: that many further short text parameters follow the generated ones (parameter counts up to
+	// the protocol's 65535 without storing them in the case)
+	Bulk int `json:"bulk,omitempty"`
 	TLS        bool     `json:"tls,omitempty"`
 }
 
@@ -74,6 +77,15 @@ func (c Case) history() (play.History, []string) {
 		}
 		pf = append(pf, p.Fmt)
 	}
+	for i := 0; i < c.Bulk; i++ {
+		b := []byte(fmt.Sprintf("b%d", i))
+		params = append(params, &b)
+		f := int16(0)
+		if c.PShape == "one" && len(pf) > 0 {
+			f = pf[0]
+		}
+		pf = append(pf, f)
+	}
 	st.ScanAs = scanAs
 	for _, r := range c.Rows {
 		st.Ops = append(st.Ops, script.Op{K: "row", Vals: r})
@@ -93,6 +105,9 @@ func (c Case) history() (play.History, []string) {
 	h := play.History{}
 	h.Cfg.Table.Q = map[string]script.Outcome{q: {Stmts: []script.Stmt{st}}}
 	h.Cfg.SetLimit, h.Cfg.Limit = true, c.Limit
+	if c.Bulk > 0 && h.Cfg.Limit < 1<<20 {
+		h.Cfg.Limit = 1 << 20
+	}
 	h.TLS = c.TLS
 	h.Msgs = []script.CMsg{
 		{K: "P", Name: "s", Query: q},
@@ -160,6 +175,7 @@ func Run(c Case) core.Result {
 	lab(len(c.Params) == 0, "no-parameters")
 	lab(c.TLS, "inside-tls")
 	lab(len(c.Params) > 100, ">100-parameters")
+	lab(c.Bulk > 0, ">=32767-parameters")
 	lab(len(c.Others) > 0, "several-portals-bound-before-execute")
 	lab(len(c.Others) > 0 && c.NameFamily != "", "names="+c.NameFamily)
 	res.Labels = append(res.Labels, "pshape="+c.PShape)
@@ -193,7 +209,7 @@ func Run(c Case) core.Result {
 			if ev.K != "stmt" {
 				continue
 			}
-			if len(ev.Params) != len(c.Params) {
+			if len(ev.Params) != len(c.Params)+c.Bulk {
 				continue // an execution of another portal
 			}
 			for j, po := range ev.Params {
